@@ -67,6 +67,10 @@ def raises_always(handler):
     return False
 
 
+META["technique"] += "; who-may-write rule for the binary repository's Packages index (AtomicWriteFile only)"
+META["level"] += " (R8) every write of binpkg/remote.py's index location goes through AtomicWriteFile."
+
+
 def run(ctx):
     P = ctx.program
     ctx.explanation = META["level"]
@@ -239,6 +243,22 @@ def run(ctx):
                   f"although that test says 'same' (a revision bump when only .version is compared) hides the old entry BEFORE the new one is listed — a crash in between lists neither", node=tests[0])
     ctx.floor("R7", 2)
 
+    # ---- R8 the binary repository's index is replaced, never rewritten in place ----------------------------------------
+    # tree.notify_add_package -> cache.commit() -> _write_data is the last step of every binpkg install / replace; a fresh view
+    # reads that file.  Every write of the index location goes through AtomicWriteFile (temp + rename, discard on error).
+    from ..core import fsfx
+    rm = P.module("pkgcore.binpkg.remote")
+    writers = [(f_, s_) for f_ in rm.funcs.values() for s_ in fsfx.engine(P).direct(f_) if s_.op in ("write", "create", "rename") and "self:_location" in s_.srcs]
+    # `open(loc, "wb").close()` only empties the file (one step: old index or the complete index of an empty repository)
+    writers = [(f_, s_) for f_, s_ in writers if not (isinstance(getattr(s_.node, "_parent", None), ast.Attribute) and s_.node._parent.attr == "close")]
+    ctx.require(writers, "binpkg/remote.py: no write of the index location (self._location) found")
+    for f_, s_ in writers:
+        atomic = isinstance(s_.node, ast.Call) and (dotted(s_.node.func) or "").split(".")[-1] == "AtomicWriteFile"
+        ctx.check("R8", f_, atomic, f"index-written-atomically:{f_.name}", f"{f_.qual} writes the index through AtomicWriteFile",
+                  f"{f_.qual} writes the index location with `{A.unparse(s_.node)[:60]}`: the Packages index is truncated and rewritten in place, so a crash (or a serialisation error) "
+                  f"in the middle leaves a fresh view of the repository with a partial index", node=s_.node)
+    ctx.floor("R8", 1)
+
 
 FV = "src/pkgcore/vdb/repo_ops.py"
 FB = "src/pkgcore/binpkg/repo_ops.py"
@@ -253,3 +273,7 @@ MUTANTS = [
     {"name": "binpkg-stage-elsewhere", "file": FB, "old": "            os.path.dirname(final_path),\n            f\".tmp.", "new": "            \"/var/tmp\",\n            f\".tmp.", "rule": "R5"},
 ]
 TWINS = []
+
+MUTANTS += [
+    {"name": "packages-index-rewritten-in-place", "file": "src/pkgcore/binpkg/remote.py", "old": "                handler = AtomicWriteFile(self._location)\n", "new": "                handler = open(self._location, \"w\")\n", "rule": "R8"},
+]
